@@ -58,6 +58,14 @@ ATOMS: list[tuple[str, tuple[str, ...], bool, str]] = [
     ("PEEK[-1..]", (), True, ""),
     ("PEEK[1..]", (), True, ""),
     ("PEEK[..-1]", (), True, ""),
+    # the empty string on the stack, and the stack observed right after a conditional push
+    ('PUSH("a"?) ~ PEEK', (), True, ""),
+    ('PUSH("a"*) ~ PEEK_ALL', (), True, ""),
+    ('PUSH("a"?) ~ POP', (), True, ""),
+    ('PUSH("b"?) ~ PUSH("a") ~ PEEK[..]', (), False, ""),
+    ('PUSH("a")? ~ PEEK_ALL', (), True, ""),
+    ('SOI ~ "a"', (), False, ""),
+    ('"a" ~ EOI', (), False, ""),
 ]
 
 # context: format string with {x}, nullable as a function of x's nullability,
@@ -103,6 +111,10 @@ TRIVIA: list[tuple[str, str, str]] = [
     ("both", 'WHITESPACE = _{ " " }\nCOMMENT = _{ "#" ~ "b"* ~ "#" }', " #"),
     ("both-pair", 'WHITESPACE = { " " }\nCOMMENT = { "#" }', " #"),
     ("overlap", 'WHITESPACE = _{ " " }\nCOMMENT = _{ " #" }', " #"),
+    # implicit rules that call other rules: their bodies are matched atomically, silent or not
+    ("ws-calls", 'WHITESPACE = _{ sp }\nsp = { " " }', " "),
+    ("ws-calls-compound", 'WHITESPACE = _{ sp }\nsp = ${ " " ~ sq? }\nsq = { "#" }', " #"),
+    ("cm-calls-nonatomic", 'COMMENT = _{ "#" ~ cq }\ncq = !{ "b" ~ "b"? }\nWHITESPACE = { sp }\nsp = { " " }', " #"),
 ]
 
 
@@ -179,9 +191,13 @@ def g1_cases(seed: int, n_grammars: int | None, depth: int = 2, maxlen: int = 4)
                 for mod in START_MODS:
                     combos.append((lab, body, hs, extra, mod, tlabel, trules, textra))
     else:
-        rng.shuffle(combos)
-        keep = combos[: max(n_grammars // 2, 1)]
-        for _ in range(n_grammars - len(keep)):
+        # quick tier: the depth<=1 kernel is complete in (atom, context); each pair runs without trivia
+        # and under two seeded trivia configurations; the rest of the budget samples depth 2
+        keep = []
+        for lab, body, hs, extra in d1:
+            for tlabel, trules, textra in [TRIVIA[0]] + rng.sample(TRIVIA[1:], 2):
+                keep.append((lab, body, hs, extra, rng.choice(START_MODS), tlabel, trules, textra))
+        for _ in range(n_grammars):
             lab, body, hs, extra = rng.choice(deep)
             tlabel, trules, textra = rng.choice(TRIVIA)
             keep.append((lab, body, hs, extra, rng.choice(START_MODS), tlabel, trules, textra))
